@@ -307,12 +307,27 @@ fn hostile_response(r: &mut Rng, ty: &Name, host: &Name, own_inst: &Name, own_ho
         recs.push(RR::new(inst.clone(), r.chance(1, 2), *r.pick(&[0u32, 1, 120, u32::MAX]), RData::Srv { prio: 0, weight: 0, port: r.below(65536) as u16, target: target.clone() }));
     }
     if r.chance(1, 2) {
-        let txt: Vec<u8> = match r.below(5) {
+        let txt: Vec<u8> = match r.below(9) {
             0 => vec![],
             1 => vec![255; 300],
             2 => { let mut v = vec![200u8]; v.extend(vec![b'k'; 10]); v }
             3 => (0..8000).map(|i| if i % 256 == 0 { 255 } else { b'x' }).collect(),
-            _ => vec![1, b'=', 0, 3, b'a', b'=', 0xff],
+            4 => vec![1, b'=', 0, 3, b'a', b'=', 0xff],
+            _ => {
+                // every boundary of the last string: 0-2 well-formed strings, then one whose length byte says one byte less
+                // than, exactly, one or two bytes more than what is left of the RDATA (or 255)
+                let mut v = vec![];
+                for i in 0..r.below(3) {
+                    let s = format!("k{}=v{}", i, i);
+                    v.push(s.len() as u8);
+                    v.extend(s.as_bytes());
+                }
+                let have = r.below(6) as usize;
+                let says = match r.below(5) { 0 => have.saturating_sub(1), 1 => have, 2 => have + 1, 3 => have + 2, _ => 255 };
+                v.push(says as u8);
+                v.extend(std::iter::repeat(b'a').take(have));
+                v
+            }
         };
         recs.push(RR::new(inst.clone(), true, 4500, RData::Txt(txt)));
     }
